@@ -461,11 +461,13 @@ def check(ctx):
     # B10: the SQLite backend keeps the timestamp column as text, written with Display and read back with FromStr: writer / reader
     # agreement of the text form and its purity (= C10.E3 / E8, re-evaluated under C17)
     import c10
+    import bits_abs
     n0 = len(ctx.obs)
+    bits_abs.check_layout(ctx, prod, 'C10.SEM')          # (the layout the reader / writer summaries of E3 are read against)
     c10.check_E3(ctx, prod)
     c10.check_text_pure(ctx, prod, rule='C17.B10')
     for o in ctx.obs[n0:]:
-        o.rule = o.rule.replace('C10.E3', 'C17.B10')
+        o.rule = o.rule.replace('C10.E3', 'C17.B10').replace('C10.SEM', 'C17.B10.L')
     check_B3(ctx, prod, tu)
     check_B4(ctx, prod)
     check_B5(ctx, prod)
